@@ -106,7 +106,11 @@ def level_strategy(st, level0, parent_names, parent_has_ignore, used_ignores=())
         if not defs and not ign:
             # a grammar needs at least one statement
             defs['Extra'] = ('rule', 'Extra', None, ('seq', [('ref', 'Items'), ('opt', ('ref', 'Word'))]))
-        return {'defs': defs, 'ignores': ign, 'dotted': draw(st.integers(0, 4)) == 0}
+        out = {'defs': defs, 'ignores': ign, 'dotted': draw(st.integers(0, 4)) == 0}
+        if level0:
+            # the start rule is recognised whatever its capitalisation - also as the INHERITED entry rule
+            out['start_name'] = draw(st.sampled_from(['start', 'start', 'Start', 'START']))
+        return out
     return lv()
 
 
@@ -172,9 +176,21 @@ def flatten(chain):
     return peg.G(rules, ignores=ign)
 
 
+def start_name(chain):
+    return chain[0].get('start_name', 'start')
+
+
 def level_grammar(chain, name, parent_name):
     lv = chain[-1]
     rules = [lv['defs'][n] for n in ORDER if n in lv['defs']]
+    sn = start_name(chain)
+    if sn != 'start':
+        def rw(n):
+            if n[0] == 'ref' and n[1] == 'super.start':
+                return ('ref', 'super.' + sn)
+            kids = peg.children(n)
+            return peg.rebuild(n, [rw(c) for c in kids]) if kids else n
+        rules = [('rule', sn, r[2], rw(r[3])) if (r[0] == 'rule' and r[1] == 'start') else r for r in rules]
     ign = [IGNORES[i] for i in lv['ignores']]
     return peg.G(rules, ignores=ign, header=name, extends=parent_name)
 
@@ -326,7 +342,7 @@ class World:
         family = self.ancestors(mi % len(self.mods))[:-1]
         for anc in family:
             sut.run(anc['module'], None, text, budget=diff.QUICK_BUDGET)
-        got = diff.run_confirmed(rec['module'], entry, text)
+        got = diff.run_confirmed(rec['module'], start_name(chain) if entry == 'start' else entry, text)
         want = diff.run_confirmed(rec['flatmod'], entry, text)
         for anc in family:
             if anc.get('flatmod') is None:
